@@ -11,7 +11,7 @@ from fractions import Fraction
 
 from .. import terms as T
 from ..consts import NotConstant, fold
-from ..frozen import compare
+from ..frozen import compare, compare_formulas
 from ..model import AnalysisError, body_without_doc, const_value, loc, unparse
 from ..terms import Extract, Poly
 from .common import Origins, abs_compare, date_reads_in
@@ -134,16 +134,18 @@ def r07_3(chk):
     compare(chk, "R07.3", f"{BETA}::Sgp4Beta.orbit:setter", s.node, loc(s, s.node), "SGP4 initialisation, Spacetrack Report #3")
     f = repo.func(BETA, "Sgp4Beta.propagate")
     compare(chk, "R07.3", f"{BETA}::Sgp4Beta.propagate", f.node, loc(f, f.node), "SGP4 secular and periodic terms, Spacetrack Report #3")
+    compare_formulas(chk, "R07.3", f"{BETA}::Sgp4Beta.orbit:setter", s.node, loc(s, s.node), "SGP4 initialisation")
+    compare_formulas(chk, "R07.3", f"{BETA}::Sgp4Beta.propagate", f.node, loc(f, f.node), "SGP4 secular and periodic terms")
     for cls in ("WGS72Old", "WGS72", "WGS84"):
         c = repo.cls(BETA, cls)
         compare(chk, "R07.3", f"{BETA}::{cls}", c.node, loc(c.module, c.node), "gravity model constants")
-    chk.floor("R07.3", 5)
+    chk.floor("R07.3", 7)
 
 
 def run(chk):
     chk.rule("R07.1", "wrapper wiring around the reference sgp4 library")
     chk.rule("R07.2", "native model: WGS-72 constants by value, unit conversions, Newton Kepler iteration")
-    chk.rule("R07.3", "native model: numeric literals equal the frozen reference")
+    chk.rule("R07.3", "native model: numeric literals and the algebraic normal form of every formula equal the frozen reference")
     chk.guard(r07_1, chk)
     chk.guard(r07_2, chk)
     chk.guard(r07_3, chk)
